@@ -197,27 +197,44 @@ def children_changed(ad, l, pre):
 
 
 # ---------------------------------------------------------------- the twin experiment at one state
-def run_continuation(ad, X, B, rng):
-    """Same ops on the probed learner X and the untouched twin B; first difference or None."""
-    script = [("ask", rng.choice([1, 2, 3, 5])), ("tell", 2), ("ask", rng.choice([1, 2, 4])), ("askf", rng.choice([1, 3])),
-              ("tell", 3), ("ask", rng.choice([1, 2]))]
+def script_standard(rng):
+    return [("ask", rng.choice([1, 2, 3, 5])), ("tell", 2), ("ask", rng.choice([1, 2, 4])), ("askf", rng.choice([1, 3])),
+            ("tell", 3), ("ask", rng.choice([1, 2]))]
+
+
+def script_resume(rng):
+    """Cancel and resume: discard what is outstanding, then ask / tell again."""
+    return [("discard", 0), ("ask", rng.choice([2, 3, 5])), ("tell", 2), ("ask", rng.choice([4, 6])), ("askf", 3), ("tell", 3),
+            ("discard", 0), ("ask", 4)]
+
+
+def script_long(rng):
+    """Several committing asks of size >= 4 without intermediate tells first (pending points accumulate)."""
+    return [("ask", rng.choice([4, 5, 6])), ("ask", 4), ("tell", 3), ("ask", rng.choice([4, 5])), ("tell", 4), ("ask", 4)]
+
+
+def run_continuation(ad, X, B, rng, script=None, who="the untouched twin"):
+    """Same ops on the probed learner X and the reference twin B; first difference or None."""
+    script = script if script is not None else script_standard(rng)
     got = []
     for what, k in script:
-        if what in ("ask", "askf"):
-            op = ["ask", k, what == "ask"]
+        if what in ("ask", "askf", "discard"):
+            op = ["remove_unfinished"] if what == "discard" else ["ask", k, what == "ask"]
             ob, ox = G.apply_op(ad, B, op), G.apply_op(ad, X, op)
             if G.answer_key(ob) != G.answer_key(ox):
-                return f"{op} answered {G.short(ox)} but the untouched twin answered {G.short(ob)}", op
+                return f"{op} answered {G.short(ox)} but {who} answered {G.short(ob)}", op
             if G.is_exc(ob):
                 return None, None
             if what == "ask":
                 got += ob[1]
+            elif what == "discard" and not ad.discard_noop:
+                got = []
         else:
             for p in got[:k]:
                 op = ["tell", p, G.plain(ad.value(ad.point(p)))]
                 ob, ox = G.apply_op(ad, B, op), G.apply_op(ad, X, op)
                 if G.answer_key(ob) != G.answer_key(ox):
-                    return f"{G.short(op)} -> {G.short(ox)} but on the untouched twin {G.short(ob)}", op
+                    return f"{G.short(op)} -> {G.short(ox)} but on {who} {G.short(ob)}", op
                 if G.is_exc(ob):
                     return None, None
             got = got[k:]
@@ -225,8 +242,22 @@ def run_continuation(ad, X, B, rng):
     d = G.diff_snap(sb, sx)
     if d:
         k = d[0]
-        return f"after a common continuation {k} differs: {G.short(sx[k])} vs untouched twin {G.short(sb[k])}", None
+        return f"after a common continuation {k} differs: {G.short(sx[k])} vs {who} {G.short(sb[k])}", None
     return None, None
+
+
+def unobserved_experiment(ad, H, n, seed, counterfactual=False):
+    """Twins on which NO read-only observation is made: one gets the two non-committing asks, the other nothing; then
+    the cancel-and-resume continuation.  (loss() and snapshots touch the same private caches as ask(): observing both
+    twins first would equalise them.)"""
+    A0, B0 = G.replay(ad, H), G.replay(ad, H)
+    saved = save_balancing_private(A0) if counterfactual else None
+    for _ in range(2):
+        G.apply_op(ad, A0, ["ask", n, False])
+        if counterfactual:
+            restore_balancing_private(A0, saved)
+    rng = random.Random(seed + 7)
+    return run_continuation(ad, A0, B0, rng, script_resume(rng), "the twin that was never asked nor observed")[0]
 
 
 def probe_state(ad, H, n, seed):
@@ -263,6 +294,9 @@ def probe_state(ad, H, n, seed):
     msg, _ = run_continuation(ad, A, B, random.Random(seed))
     if msg:
         generic.append(("later", msg))
+    msg_u = unobserved_experiment(ad, H, n, seed)
+    if msg_u:
+        generic.append(("later-unobserved", msg_u))
     if generic and G.base_kind(ad.spec) == "L2D":
         now = [G.canon(list(b._stack.items())) for a, b in leaves(ad, A) if a.spec["kind"] == "L2D"]
         if now != pre["l2d_stack"]:
@@ -286,6 +320,7 @@ def probe_state(ad, H, n, seed):
         restore_balancing_private(A2, saved)
         ok = G.answer_key(q1) == G.answer_key(r1) and not G.diff_snap(s0, G.snapshot(ad, A2))
         msg2, _ = run_continuation(ad, A2, B2, random.Random(seed))
+        msg2 = msg2 or unobserved_experiment(ad, H, n, seed, counterfactual=True)
         if ok and not msg2:
             return [(SIG_F3B, f"{name} after {len(H)} ops: {generic[0][1]} (vanishes when _ask_cache/_loss/_pending_loss/_cycle "
                               f"are put back by hand)")], True
@@ -332,6 +367,22 @@ def probe_state(ad, H, n, seed):
             fails.append((f"C09:{G.spec_name(_sig_spec(ad.spec))}:commit-state",
                           f"{name} after {len(H)} ops: after ask({n}, True) {d[0]} = {G.short(sc[d[0]])} but after ask({n}, False) + "
                           f"tell_pending(each) {G.short(sd[d[0]])}"))
+        elif G.base_kind(ad.spec) != "L2D" and all(b.tri is not None for a, b in leaves(ad, D) if a.spec["kind"] == "LND"):
+            # (a LearnerND without a triangulation draws random points from a private RNG that ask(tell_pending=False)
+            # rolls back and ask(tell_pending=True) advances -- the F24 mechanism; such states are left to C10:F24)
+            # the two must also BEHAVE alike: further committing asks of size >= 4 while pending points accumulate
+            if is_bal:
+                for l in (C, D):
+                    l._loss, l._pending_loss = {}, {}       # C09:F2 (stale loss caches) is decided by the comparison above
+            rng = random.Random(seed + 13)
+            m, _ = run_continuation(ad, C, D, rng, script_long(rng), f"the twin that did ask({n}, False) + tell_pending(each)")
+            if m and is_bal:
+                known = attribute_commit_later(ad, H, n, seed, rd)
+                if known:
+                    return [(known, f"{name} after {len(H)} ops, after ask({n}, True): {m}")], True
+            if m:
+                fails.append((f"C09:{G.spec_name(_sig_spec(ad.spec))}:commit-later",
+                              f"{name} after {len(H)} ops, after ask({n}, True): {m}"))
     elif not G.is_exc(rc) and not ad.has_tell_pending:
         # integrator: no per-point tell_pending; the returned points must be pending
         pend = set(ad.pending(C))
@@ -340,6 +391,34 @@ def probe_state(ad, H, n, seed):
             fails.append((f"C09:{G.spec_name(_sig_spec(ad.spec))}:commit-state",
                           f"{name} after {len(H)} ops: points {G.short(missing)} returned by ask({n}, True) are not pending"))
     return fails, False
+
+
+def attribute_commit_later(ad, H, n, seed, rd):
+    """A BalancingLearner whose ask(n, True) and ask(n, False)+tell_pending(each) twins behave differently later on:
+    is it one of the listed defects of the non-committing ask (children not restored / own caches not restored)?"""
+    D2 = G.replay(ad, H)
+    pre2 = pre_state(ad, D2)
+    saved = save_balancing_private(D2)
+    G.apply_op(ad, D2, ["ask", n, False])
+    mech = known_mechanism(ad, D2, pre2)
+    if mech:
+        return mech[0]
+    chg = children_changed(ad, D2, pre2)
+    if chg:
+        attrs = {a for v in chg.values() for a in v}
+        if G.base_kind(ad.spec) in ("L1D", "Avg1D") and attrs <= L1D_REBUILD_ATTRS:
+            return SIG_F18
+        return None
+    restore_balancing_private(D2, saved)
+    for p in (rd[1] if not G.is_exc(rd) else []):
+        G.apply_op(ad, D2, ["tell_pending", p])
+    C2 = G.replay(ad, H)
+    G.apply_op(ad, C2, ["ask", n, True])
+    for l in (C2, D2):
+        l._loss, l._pending_loss = {}, {}
+    rng = random.Random(seed + 13)
+    m, _ = run_continuation(ad, C2, D2, rng, script_long(rng))
+    return SIG_F3B if not m else None
 
 
 def _close(a, b, rel=1e-5):
@@ -407,7 +486,7 @@ def track_handed(ad, op, out, handed):
         handed[:] = []
 
 
-def shrink(spec, ops, n, seed, signature, budget=120):
+def shrink(spec, ops, n, seed, signature, budget=40):
     """Delta debugging over the op list, then over n: smallest input that still fails with the same signature."""
     ad = G.adapter(spec)
 
@@ -585,7 +664,7 @@ def run(chk: Check) -> int:
         chk.fail(SIG_F16, f"BalancingLearner([IntegratorLearner, ...]).ask(1) raises {G.short(bi_exc)}",
                  {"spec": {"kind": "Bal", "child": {"kind": "Int"}, "nchild": 2, "strategy": "cycle"}, "ops": [], "n": 1, "smoke": "balint"})
     specs = all_specs(l2d_ok=not l2d_exc, bal_int_ok=not bi_exc)
-    per = 9 if chk.quick else 40
+    per = 8 if chk.quick else 40
     nops = 16 if chk.quick else 40
     stride = 1 if chk.quick else 2
     jobs = []
